@@ -159,7 +159,18 @@ def _strict_stream_ok(data: bytes) -> bool:
         return False
 
 
+class StopShard(Exception):
+    pass
+
+
 def run_shard(ctx: Ctx, acc: Acc):
+    try:
+        _run_shard(ctx, acc)
+    except StopShard:
+        acc.count("shard-stopped-early-after-hangs")
+
+
+def _run_shard(ctx: Ctx, acc: Acc):
     n = ctx.scale(24_000, 700_000)
 
     def do(part, role, history, data, cuts, tag=None):
@@ -176,6 +187,10 @@ def run_shard(ctx: Ctx, acc: Acc):
             acc.nontrivial(role, history, len(data), data[:64], tuple(cuts))
         for key, what in vio:
             acc.violation(key, what, {"role": role, "history": history, "data": data, "cuts": list(cuts), "part": part})
+            if key == "no-return-within-cpu-budget":
+                acc.count("no-return")
+        if acc.counters.get("no-return", 0) >= 3:
+            raise StopShard()
 
     # (a) random byte strings
     for i in range(n // 4):
